@@ -138,8 +138,8 @@ func (dec *yamlDecoder) Decode() (*CandidateNode, error) {
 		return nil, err
 	}
 
-	candidateNode.HeadComment = yamlNode.HeadComment + candidateNode.HeadComment
-	candidateNode.FootComment = yamlNode.FootComment + candidateNode.FootComment
+	candidateNode.HeadComment = joinDocumentComment(yamlNode.HeadComment, candidateNode.HeadComment)
+	candidateNode.FootComment = joinDocumentComment(yamlNode.FootComment, candidateNode.FootComment)
 
 	if dec.leadingContent != "" {
 		candidateNode.LeadingContent = dec.leadingContent
@@ -148,6 +148,14 @@ func (dec *yamlDecoder) Decode() (*CandidateNode, error) {
 	dec.readAnything = true
 	dec.documentIndex++
 	return &candidateNode, nil
+}
+
+// the comments of the document and of its root node are kept on separate lines
+func joinDocumentComment(documentComment string, nodeComment string) string {
+	if documentComment != "" && nodeComment != "" {
+		return documentComment + "\n" + nodeComment
+	}
+	return documentComment + nodeComment
 }
 
 func (dec *yamlDecoder) blankNodeWithComment() *CandidateNode {
